@@ -5,6 +5,7 @@ Property C03 — exactly the covered files are examined.
 the patterns generated from the source.
 -/
 import ReuseVerif.Lemmas.Covered
+import ReuseVerif.Lemmas.NamesMain
 
 namespace C03
 open Model Spec
@@ -66,6 +67,30 @@ theorem C03_subset (cfg : WalkCfg) (keep : List String → Bool) (rootName : Str
     refine .dir hm ?_ ih
     simp only [dirIgnored, Bool.or_eq_false_iff] at hd ⊢
     exact ⟨⟨⟨hd.1.1.1, hd.1.1.2⟩, hd.1.2⟩, hd.2.1⟩
+
+/-- Name rules, for every file name without a newline: the *generated* patterns of
+    `_IGNORE_FILE_PATTERNS` exclude exactly the names the property lists — plus the two upstream
+    workaround patterns (known finding `c03-workaround-names`; the full statement without the
+    second disjunct is false, e.g. for `CAL-1.0.txt`). -/
+theorem C03_names_partial (n : Py.Text) (hn : '\n' ∉ n) :
+    Generated.ignoreFilePatterns.any (nameMatch · n) = true ↔ SpecFileName n ∨ WorkaroundName n :=
+  file_name_rule n hn
+
+/-- Directory names excluded: exactly `.git`, `.hg`, `.sl`, `LICENSES`, `.reuse`. -/
+theorem C03_dir_names (n : Py.Text) (hn : '\n' ∉ n) :
+    Generated.ignoreDirPatterns.any (nameMatch · n) = true ↔
+      n ∈ [".git".toList, ".hg".toList, ".sl".toList, "LICENSES".toList, ".reuse".toList] :=
+  dir_name_rule n hn
+
+/-- Meson: exactly the directories whose parent is named `subprojects`. -/
+theorem C03_meson_names (n : Py.Text) (hn : '\n' ∉ n) :
+    Generated.ignoreMesonParentPatterns.any (nameMatch · n) = true ↔ n = "subprojects".toList :=
+  meson_name_rule n hn
+
+-- Non-vacuity of the name theorem's hypothesis and both sides.
+example : SpecFileName "LICENSE-MIT".toList :=
+  .inl ⟨"LICENSE".toList, by simp [licenceBases], .inr ⟨'-', "MIT".toList, .inl rfl, rfl⟩⟩
+example : '\n' ∉ "LICENSE-MIT".toList := by decide
 
 -- Non-vacuity: a concrete tree shape (the name rules are evaluated on concrete names by the
 -- correspondence check; here they are the hypotheses).
